@@ -107,6 +107,7 @@ type Contract struct {
 	Declass   []string
 	DeclassText  []string // raw `declassify <expr text> : <reason>` clauses (constant-time contracts)
 	PublicResult bool
+	RetryVerdicts bool // #ct: `if secret { continue }` directly inside a `for {}` loop that draws fresh randomness is a candidate rejection
 	Verdicts     bool // #ct: secret-dependent ifs outside loops whose arms only return public values are the function's verdicts
 	PublicResults map[int]bool
 	GhostVars []GhostStmt
@@ -537,6 +538,8 @@ func (eng *Engine) loadContractFile(file string) error {
 			cur.DeclassText = append(cur.DeclassText, rest)
 		case "verdicts":
 			cur.Verdicts = true
+		case "retry_verdicts":
+			cur.RetryVerdicts = true
 		case "public_result":
 			if strings.TrimSpace(rest) == "" {
 				cur.PublicResult = true
